@@ -492,7 +492,7 @@ func TestC06_HeaderGrid(t *testing.T) {
 	}
 	extra := []namedVal{
 		{"uint>int64", rc.Uint(1 << 63)}, {"nint<int64", rc.NegU(1 << 63)}, {"array-uint>int64", rc.Array(rc.Uint(1<<64 - 1))},
-		{"array-nint<int64", rc.Array(rc.NegU(1<<64 - 1))}, {"array-nint<int64-and-label", rc.Array(rc.Int(4), rc.NegU(1 << 63))},
+		{"array-nint<int64", rc.Array(rc.NegU(1<<64 - 1))}, {"array-nint<int64-and-label", rc.Array(rc.Int(4), rc.NegU(1<<63))},
 		{"bignum", rc.Tag(2, rc.Bytes([]byte{1, 0, 0, 0, 0, 0, 0, 0, 0}))}, {"array-bignum", rc.Array(rc.Tag(3, rc.Bytes([]byte{1})))},
 		{"tagged-time", rc.Tag(1, rc.Int(1700000000))}, {"tagged-text-time", rc.Tag(0, rc.Text("not a time"))}, {"tag55799", rc.Tag(55799, rc.Int(-7))},
 		{"deep-array", deep}, {"undefined", rc.Undef}, {"simple", rc.Simple(100)}, {"float16-nan", rc.Val{K: rc.KFloat16, F: 0x7e00}},
